@@ -117,6 +117,7 @@ impl<H: Hasher> BatchMerkleProof<H> {
     /// Returns an error if:
     /// * No indexes were provided (i.e., `indexes` is an empty slice).
     /// * Number of provided indexes is greater than 255.
+    /// * Number of provided indexes does not match the number of leaf nodes in the proof.
     /// * Any of the specified `indexes` is greater than or equal to the number of leaves in the
     ///   tree for which this batch proof was generated.
     /// * List of indexes contains duplicates.
@@ -128,6 +129,11 @@ impl<H: Hasher> BatchMerkleProof<H> {
         }
         if indexes.len() > MAX_PATHS {
             return Err(MerkleTreeError::TooManyLeafIndexes(MAX_PATHS, indexes.len()));
+        }
+        // every leaf in the proof must be opened by exactly one index; otherwise surplus leaves
+        // would not contribute to the computed root and would pass verification unauthenticated
+        if indexes.len() != self.leaves.len() {
+            return Err(MerkleTreeError::InvalidProof);
         }
         if self.depth as u32 >= usize::BITS {
             return Err(MerkleTreeError::InvalidProof);
